@@ -91,6 +91,11 @@ theorem C20_go_sites :
       ("newMemberlist", "m.packetListen"), ("newMemberlist", "m.streamListen"), ("suspicion.Confirm", "s.timeoutFn")] := by
   decide
 
+/-- **lock order (fact theorem).** The broadcast queue calls its cluster-size callback while holding the
+queue mutex; membership updates take the node lock first and the queue mutex second. The callback
+therefore must not take the node lock: it reads the lock-free estimate and nothing else. -/
+theorem C20_numNodes_callback_lock_free : Gen.numNodesCallbackCalls = ["m.estNumNodes"] := by decide
+
 end Swim.Lifecycle
 
 namespace Swim.Merge
